@@ -233,12 +233,33 @@ Proof.
       replace (skip - k)%nat with (S (skip - S k)) by lia. cbn [nth]. lra.
 Qed.
 
-(* the current entering through a terminal is the requested current whenever the assignment is balanced *)
-Theorem density_balanced (ts : list (terminal OpsR)) (I : list R) (t : nat) tm :
-  Rsum (fun x => x) I = 0 -> nth_error ts t = Some tm -> t_len _ tm <> 0 -> (t < length I)%nat ->
-  t_len _ tm * density OpsR ts I t = nth t I 0.
+(* over the reals the compensated (Neumaier) sum CPython >= 3.12 uses for exact floats is the plain sum *)
+Definition nsum_val (st : option (R * R)) : R := match st with None => 0 | Some (s, c) => s + c end.
+Lemma nsum_others_spec (I : list R) : forall st k skip,
+  nsum_others OpsR st k skip I = sum_others_acc OpsR (nsum_val st) k skip I.
 Proof.
-  intros Hbal Ht Hl Hlt. unfold density. rewrite Ht. unfold sum_others. rewrite sum_others_acc_spec, Hbal.
+  induction I as [|x tl IH]; intros st k skip.
+  - cbn [nsum_others sum_others_acc]. destruct st as [[s c]|]; cbn [nsum_val]; [|reflexivity].
+    ops. change (o_eqb OpsR c 0) with (Reqb c 0). change (o_isfin OpsR c) with true.
+    destruct (Reqb c 0) eqn:E; cbn [negb andb].
+    + apply Reqb_true in E. subst c. lra.
+    + reflexivity.
+  - cbn [nsum_others sum_others_acc]. destruct (Nat.eqb k skip); [apply IH|].
+    destruct st as [[s c]|].
+    + cbv zeta. rewrite IH. f_equal. cbn [nsum_val]. ops.
+      destruct (o_leb OpsR (o_abs OpsR x) (o_abs OpsR s)); lra.
+    + rewrite IH. f_equal. cbn [nsum_val]. ops. lra.
+Qed.
+Lemma sum_others_comp_irrelevant comp k skip (I : list R) :
+  sum_others OpsR comp k skip I = sum_others_acc OpsR 0 k skip I.
+Proof. unfold sum_others. destruct comp; [apply nsum_others_spec|reflexivity]. Qed.
+
+(* the current entering through a terminal is the requested current whenever the assignment is balanced *)
+Theorem density_balanced comp (ts : list (terminal OpsR)) (I : list R) (t : nat) tm :
+  Rsum (fun x => x) I = 0 -> nth_error ts t = Some tm -> t_len _ tm <> 0 -> (t < length I)%nat ->
+  t_len _ tm * density OpsR comp ts I t = nth t I 0.
+Proof.
+  intros Hbal Ht Hl Hlt. unfold density. rewrite Ht. rewrite sum_others_comp_irrelevant, sum_others_acc_spec, Hbal.
   cbn [Nat.leb andb]. replace (Nat.ltb t (0 + length I)) with true by (symmetry; apply Nat.ltb_lt; lia).
   rewrite Nat.sub_0_r. ops. field. exact Hl.
 Qed.
@@ -320,3 +341,119 @@ Section StepCov.
     split; [intros r; reflexivity|]. split; intros k; reflexivity.
   Qed.
 End StepCov.
+
+(* ---------------- update_mu_boundary: the change-only cache is coherent (C01) ---------------- *)
+Section Cache.
+  Notation termR := (terminal OpsR).
+  Variable comp : bool.
+  Variable all : list termR.
+
+  Lemma write_edges_in (muB : nat -> R) edges v b : In b edges -> write_edges OpsR muB edges v b = v.
+  Proof.
+    intros H. unfold write_edges. replace (existsb (Nat.eqb b) edges) with true; [reflexivity|].
+    symmetry. apply existsb_exists. exists b. split; [exact H|apply Nat.eqb_refl].
+  Qed.
+  Lemma write_edges_notin (muB : nat -> R) edges v b : ~ In b edges -> write_edges OpsR muB edges v b = muB b.
+  Proof.
+    intros H. unfold write_edges. destruct (existsb (Nat.eqb b) edges) eqn:E; [|reflexivity].
+    apply existsb_exists in E. destruct E as [x [Hx Ex]]. apply Nat.eqb_eq in Ex. subst. contradiction.
+  Qed.
+
+  Lemma update_terms_spec I : forall suf k cache (muB : nat -> T OpsR),
+    length cache = length suf ->
+    let r := update_terms OpsR comp k suf all I cache muB in
+    length (fst r) = length suf /\
+    (forall j, (j < length suf)%nat -> nth j (fst r) 0 = density OpsR comp all I (k + j)) /\
+    (forall b, (forall j tm, nth_error suf j = Some tm -> ~ In b (t_edges _ tm)) -> snd r b = muB b) /\
+    (forall j tm b, nth_error suf j = Some tm -> In b (t_edges _ tm) -> muB b = nth j cache 0 ->
+       (forall j' tm', j' <> j -> nth_error suf j' = Some tm' -> ~ In b (t_edges _ tm')) ->
+       snd r b = density OpsR comp all I (k + j)).
+  Proof.
+    induction suf as [|tm tl IH]; intros k cache muB HL r.
+    - destruct cache; [|discriminate]. cbn in r. unfold r. cbn.
+      split; [reflexivity|]. split; [intros j Hj; lia|]. split; [auto|]. intros j tm b H; destruct j; discriminate.
+    - destruct cache as [|c cs]; [discriminate|]. injection HL as HL.
+      unfold r. cbn [update_terms]. cbv zeta.
+      set (d := density OpsR comp all I k).
+      set (muB1 := if o_eqb OpsR d c then muB else write_edges OpsR muB (t_edges _ tm) d).
+      destruct (update_terms OpsR comp (S k) tl all I cs muB1) as [cs' muB'] eqn:E.
+      pose proof (IH (S k) cs muB1 HL) as H. rewrite E in H. cbn [fst snd] in H.
+      destruct H as (H1 & H2 & H3 & H4).
+      cbn [fst snd].
+      split; [cbn [length]; rewrite H1; reflexivity|]. split; [|split].
+      + intros j Hj. destruct j as [|j].
+        * cbn [nth]. rewrite Nat.add_0_r. fold d. cbn [o_eqb OpsR]. destruct (Reqb d c) eqn:Eq; [|reflexivity].
+          apply Reqb_true in Eq. symmetry; exact Eq.
+        * cbn [nth]. rewrite H2 by (cbn in Hj; lia). f_equal. lia.
+      + intros b Hb. rewrite H3.
+        * unfold muB1. destruct (o_eqb OpsR d c); [reflexivity|].
+          apply write_edges_notin. apply (Hb 0%nat tm). reflexivity.
+        * intros j tm' Hn. apply (Hb (S j) tm'). exact Hn.
+      + intros j tm0 b Hn Hin Hmu Hdisj. destruct j as [|j].
+        * cbn in Hn. inversion Hn; subst tm0. rewrite Nat.add_0_r. fold d.
+          rewrite H3.
+          -- unfold muB1. cbn [o_eqb OpsR]. destruct (Reqb d c) eqn:Eq.
+             ++ apply Reqb_true in Eq. cbn [nth] in Hmu. rewrite Hmu. symmetry; exact Eq.
+             ++ apply write_edges_in. exact Hin.
+          -- intros j' tm' Hn'. apply (Hdisj (S j') tm'); [discriminate|exact Hn'].
+        * cbn in Hn. replace (k + S j)%nat with (S k + j)%nat by lia.
+          apply (H4 j tm0 b Hn Hin).
+          -- unfold muB1. cbn [nth] in Hmu. destruct (o_eqb OpsR d c); [exact Hmu|].
+             rewrite write_edges_notin; [exact Hmu|]. apply (Hdisj 0%nat tm); [discriminate|reflexivity].
+          -- intros j' tm' Hne Hn'. apply (Hdisj (S j') tm'); [lia|exact Hn'].
+  Qed.
+
+  (* terminals cover pairwise disjoint sets of boundary edges *)
+  Definition disjoint_terminals : Prop :=
+    forall j j' tm tm' b, j <> j' -> nth_error all j = Some tm -> nth_error all j' = Some tm' ->
+      In b (t_edges _ tm) -> ~ In b (t_edges _ tm').
+
+  (* the state invariant: the cache has one entry per terminal, every terminal edge carries its terminal's cached
+     density, every other boundary edge carries 0 *)
+  Definition coherent (st : list R * (nat -> R)) : Prop :=
+    length (fst st) = length all /\
+    (forall j tm b, nth_error all j = Some tm -> In b (t_edges _ tm) -> snd st b = nth j (fst st) 0) /\
+    (forall b, (forall j tm, nth_error all j = Some tm -> ~ In b (t_edges _ tm)) -> snd st b = 0).
+
+  Theorem update_mu_boundary_coherent I st :
+    disjoint_terminals -> coherent st ->
+    let st' := update_mu_boundary OpsR comp all I st in
+    coherent st' /\
+    (forall j tm b, nth_error all j = Some tm -> In b (t_edges _ tm) -> snd st' b = density OpsR comp all I j).
+  Proof.
+    intros Hd (C1 & C2 & C3) st'. unfold st', update_mu_boundary.
+    pose proof (update_terms_spec I all 0 (fst st) (snd st) C1) as H. cbv zeta in H.
+    destruct H as (H1 & H2 & H3 & H4).
+    assert (K : forall j tm b, nth_error all j = Some tm -> In b (t_edges _ tm) ->
+                snd (update_terms OpsR comp 0 all all I (fst st) (snd st)) b = density OpsR comp all I j).
+    { intros j tm b Hn Hin. change j with (0 + j)%nat. apply (H4 j tm b Hn Hin).
+      - apply (C2 j tm b Hn Hin).
+      - intros j' tm' Hne Hn'. apply (Hd j j' tm tm' b); auto. }
+    split; [|exact K].
+    split; [exact H1|]. split.
+    - intros j tm b Hn Hin. transitivity (density OpsR comp all I j); [apply (K j tm b Hn Hin)|].
+      symmetry. apply (H2 j). apply nth_error_Some. rewrite Hn. discriminate.
+    - intros b Hb. transitivity (snd st b); [apply H3; exact Hb|apply C3; exact Hb].
+  Qed.
+
+  (* any sequence of calls (any time-dependent currents, repeats, switching off and on again): the boundary
+     vector equals the one computed from scratch for the LAST currents *)
+  Theorem cache_coherent Is I_last :
+    disjoint_terminals ->
+    let st0 := (repeat 0 (length all), fun _ : nat => 0) in
+    let st := fold_left (fun s I => update_mu_boundary OpsR comp all I s) (Is ++ [I_last]) st0 in
+    (forall j tm b, nth_error all j = Some tm -> In b (t_edges _ tm) -> snd st b = density OpsR comp all I_last j) /\
+    (forall b, (forall j tm, nth_error all j = Some tm -> ~ In b (t_edges _ tm)) -> snd st b = 0).
+  Proof.
+    intros Hd st0 st.
+    assert (C0 : coherent st0).
+    { unfold coherent, st0. cbn [fst snd]. split; [apply repeat_length|]. split; [|reflexivity].
+      intros j tm b Hn _. symmetry. apply nth_repeat. }
+    assert (G : forall l s, coherent s -> coherent (fold_left (fun s I => update_mu_boundary OpsR comp all I s) l s)).
+    { induction l as [|I tl IHl]; intros s Hs; [exact Hs|]. cbn [fold_left]. apply IHl.
+      apply (update_mu_boundary_coherent I s Hd Hs). }
+    unfold st. rewrite fold_left_app. cbn [fold_left].
+    destruct (update_mu_boundary_coherent I_last _ Hd (G Is st0 C0)) as [(_ & _ & Z) K].
+    split; [exact K|exact Z].
+  Qed.
+End Cache.
